@@ -15,6 +15,17 @@ CHECKS = {
    note='Trusted: Lean kernel (axioms propext, Classical.choice, Quot.sound), the correspondence harness and its generator, the '
         'abstraction of Python objects to identities. Solve equality is observed (LP solver is floating point), not proved.',
    technique='Lean 4 proof (invariant by induction + refinement) with model-vs-code correspondence'),
+ 'C09': dict(
+   category='proof',
+   text='The option handling of every entry point (the options= flow through wrappers, each options.get with its validation test '
+        'and exception class, the main-loop range) is regenerated from the Python source into Lean on every run; theorems re-checked '
+        'against it: per-call options override the global dictionary for all ten entry points, accepted configurations satisfy the '
+        'documented constraints, the only exception is ValueError, the loop bound is maxiters, and (model level) results are independent '
+        'of call history. The real entry points are run against the generated parsers and against purity/history/thread oracles.',
+   design_ref='DESIGN.md 5 C09',
+   note='Trusted: Lean kernel, translator py2lean.gen_options and the fixed semantics of its combinators (validated by running the '
+        'generated parsers against the real code), byte-image purity oracle. Thread interleavings inside BLAS are observed only.',
+   technique='Lean 4 proof over a model generated from source by a translator, plus correspondence and purity runs'),
 }
 REASONS = {}
 def main():
